@@ -42,6 +42,8 @@ def run(ctx, rep):
     rep.rule('R04.10', 'handing the result over terminates and visits each object once: untrace recurses into the elements only after removing the object it was given from the managed list')
     c03.check_recursion_removes(ctx, rep, 'R04.10')
     check_box_release(ctx, rep, 'R04.6')
+    rep.rule('R04.12', 'every kind of value that lives in a heap box can be released: the types Object::free destroys are exactly the types is_heap_allocated answers for (a new boxed type without an arm in free is never given back)')
+    check_free_covers_heap(ctx, rep, 'R04.12')
     # ---- R04.1 ---------------------------------------------------------------------------------
     news = [(b, t) for b, t in fn.calls() if callee_name(t) == GCN + 'new']
     rep.ob(len(news) == 1, 'R04.1', fn.path, 'one collector per run', 'run() creates exactly one collector (found %d)' % len(news), fn.loc())
@@ -151,6 +153,19 @@ def run(ctx, rep):
            'free_recursive also frees the elements of an array; elements are managed objects that the collector frees itself, so using it inside the crate releases them twice: %s' % frc, 'src/object.rs')
     zs = [t for b, t in sw.calls() if callee_name(t).endswith('iter_zeros')]
     rep.ob(len(zs) == 1, 'R04.4', sw.path, 'frees the unmarked', 'the objects removed are those whose mark bit is clear (iter_zeros)', sw.loc())
+
+
+def check_free_covers_heap(ctx, rep, rule):
+    from rules import c15
+    from rules.unsafe_inv import released_types
+    F = ctx.facts()
+    fn_free = F.fn('object::Object::free')
+    heap = set(c15.heap_types(ctx))
+    rel = released_types(ctx)
+    for ty in sorted(heap | set(rel)):
+        rep.ob(ty in heap and ty in rel and set(rel[ty]) == {ty}, rule, fn_free.path, 'Type::' + ty,
+               'lives in a heap box: %s; Object::free releases it as %s' % (ty in heap, sorted(set(rel.get(ty, []))) or 'nothing'), fn_free.loc())
+    rep.count('heap_types', len(heap))
 
 
 def check_box_release(ctx, rep, rule):
